@@ -65,6 +65,12 @@ def metaOk (o : Obs) (src : Addr) (usn : Option Bytes) : Bool :=
   && o.lookupCI kRemote == some (some (.addr src))
   && o.lookupCI kUdn == some ((usn.bind fun u => if u.isEmpty then .none else udnFromUsn u).map Val.str)
 
+/-- sender metadata of ANY decoded datagram is that of its source address, whatever headers it carries -/
+def sourceMetaOk (o : Obs) (src : Addr) : Bool :=
+  o.lookupCI kHost == some (some (.str (hostString src)))
+  && o.lookupCI kPort == some (some (.int src.port))
+  && o.lookupCI kRemote == some (some (.addr src))
+
 /-- the value sent under a name comes back as sent.  `location` with text comes back as
     `get_adjusted_url(sent, source)` — the sent URL itself unless the source is a scoped IPv6 address
     and the URL's host a link-local address (`adjust_identity`); outside the modelled URL grammar
@@ -87,8 +93,9 @@ def roundTripOk (metaKeys : List Bytes) (sl : Bytes) (hs : List (Bytes × Bytes)
   rl == sl
   && o.coherent
   && hs.all (fun p => valueOk o src p.1 p.2)
-  -- exactly the sent names (ignoring case) plus metadata names, each once
-  && o.iter.all (fun n => (hs.map fun p => lower p.1).contains (lower n) || metaKeys.contains (lower n))
+  -- exactly the sent names (ignoring case) plus metadata names — the `LOWER_*` constants or any other name
+  -- with the private prefix `_` (the text fixes no closed list of sender metadata) —, each once
+  && o.iter.all (fun n => (hs.map fun p => lower p.1).contains (lower n) || metaKeys.contains (lower n) || n.head? == some 95)
   && hs.all (fun p => (o.iter.map lower).contains (lower p.1))
   && distinctCI o.iter
   && metaOk o src ((hs.find? fun p => lower p.1 == ofString "usn").map (·.2))
